@@ -457,4 +457,96 @@ theorem plain_ok : ∃ rows, interpret (Env.ofData D args) ir = .ok rows := ⟨r
 
 end C21a
 
+/-! ### C21b: an implementer widens an inherited edge parameter; the recursion continues on the interface
+
+```graphql
+interface A { id: Int  e(x: Int!): [A] }
+type B implements A { id: Int  e(x: Int): [A] }
+type RootSchemaQuery { b: [B] }
+{ b { e @recurse(depth: 2) { id @output(name: "t") } } }
+```
+`Schema::parse` accepts the schema (only *narrowing* of an inherited parameter type is an error).  The
+frontend completes the omitted `x` as `null` from `B.e`'s declaration (`x: Int`, nullable, no default);
+the recursion needs no coercion (case 4a: `A` declares `e` with target `A`), so from depth 2 on the
+engine resolves `e` on type `A` with the tuple `{x: null}` although `A.e` declares `x: Int!`: the
+adapter is called with a parameter value the named type's declaration does not admit.  Confirmed on
+the real engine: `resolve_neighbors(type_name = "A", "e", {x: Null})` (corpus/C21.cases, oracle key
+`contract:param-value-not-of-declared-type`).  No panic: the table adapter answers anyway.
+-/
+namespace C21b
+
+def tyInt : QTy := ⟨"Int", [true]⟩
+def eA : EdgeInfo := ⟨"e", "A", ⟨"A", [true, true]⟩, [⟨"x", ⟨"Int", [false]⟩, none⟩]⟩
+def eB : EdgeInfo := ⟨"e", "A", ⟨"A", [true, true]⟩, [⟨"x", ⟨"Int", [true]⟩, none⟩]⟩
+
+def S : SchemaView :=
+  { types := [⟨"A", true, [], [("id", tyInt)], [eA]⟩,
+              ⟨"B", false, ["A"], [("id", tyInt)], [eB]⟩],
+    roots := [⟨"b", "B", ⟨"B", [true, true]⟩, []⟩] }
+
+def D : Data :=
+  { vertices := [⟨0, "B", [("id", .int64 0)]⟩, ⟨1, "B", [("id", .int64 1)]⟩,
+                 ⟨2, "B", [("id", .int64 2)]⟩],
+    adj := [⟨0, "e", [("x", .null)], [1]⟩, ⟨1, "e", [("x", .null)], [2]⟩,
+            ⟨2, "e", [("x", .null)], []⟩],
+    starts := [⟨"b", [], [0]⟩],
+    rx := [],
+    sub := [("A", []), ("B", ["A"])] }
+
+def v1 : IRVertex := ⟨1, "B", none, []⟩
+def v2 : IRVertex := ⟨2, "A", none, []⟩
+def edge1 : IREdge := ⟨1, 1, 2, "e", [("x", .null)], false, some ⟨2, none⟩⟩
+def comp : Component := .mk 1 [v1, v2] [edge1] [] [⟨"t", 2, "id", tyInt⟩]
+def ir : IRQuery := ⟨"b", [], [], comp⟩
+def args : List (Name × Value) := []
+
+/-- depth 0, 1, 2 (in the order the piggy-backed contexts are unpacked) -/
+def out : List Ctx :=
+  [{ ctx0 with vertices := [(1, some 0), (2, some 0)] },
+   { ctx0 with active := some 1, vertices := [(1, some 0), (2, some 1)] },
+   { ctx0 with active := some 2, vertices := [(1, some 0), (2, some 2)] }]
+
+def rows : List Row := [[("t", .int64 0)], [("t", .int64 1)], [("t", .int64 2)]]
+
+theorem hyps :
+    WFq ir = true ∧ ArgsOK ir args = true ∧ Conforms S D = true ∧
+      NoKnownTrigger D ir args = true := by decide
+
+/-- the IR the frontend produced is *not* typed by the schema: the tuple `{x: null}` is not a valid
+parameter tuple of `A.e` (`edgeDeclOK S "A" "e" "A" [("x", null)]` fails) -/
+theorem schema_not_ok : SchemaOK S ir = false := by decide
+
+theorem unfold1 (env : Env) (hs : env.adapter.start "b" [] 1 = .ok [0]) : interpret env ir =
+    (computeComponent env (63 + 1) comp [ctx0]).bind (mapR (constructRow env comp)) := by
+  show (env.adapter.start "b" [] 1).bind _ = _
+  rw [hs]; rfl
+
+theorem contract_broken :
+    interpret (Env.checked S D args) ir = .panic "contract:params" := by
+  have hroot : comp.root = 1 := rfl
+  have hv : comp.vertex? 1 = some v1 := rfl
+  have he : enterVertex (Env.checked S D args) comp v1 [ctx0] = .ok [ctx1] := rfl
+  have hm : mergeStages comp.edges comp.folds (comp.edges.length + comp.folds.length)
+      = .ok [.edge edge1] := rfl
+  have hk : checkVisited [1] edge1.fromVid edge1.toVid = .ok [2, 1] := rfl
+  have hx : expandEdge (Env.checked S D args) comp edge1 [ctx1] = .panic "contract:params" := rfl
+  rw [unfold1 _ rfl]
+  simp only [computeComponent, runStages, hroot, hv, he, hm, hk, hx, R.bind_ok', R.bind_panic']
+
+theorem plain_rows : interpret (Env.ofData D args) ir = .ok rows := by
+  have hroot : comp.root = 1 := rfl
+  have hv : comp.vertex? 1 = some v1 := rfl
+  have he : enterVertex (Env.ofData D args) comp v1 [ctx0] = .ok [ctx1] := rfl
+  have hm : mergeStages comp.edges comp.folds (comp.edges.length + comp.folds.length)
+      = .ok [.edge edge1] := rfl
+  have hk : checkVisited [1] edge1.fromVid edge1.toVid = .ok [2, 1] := rfl
+  have hx : expandEdge (Env.ofData D args) comp edge1 [ctx1] = .ok out := rfl
+  have hr : mapR (constructRow (Env.ofData D args) comp) out = .ok rows := rfl
+  rw [unfold1 _ rfl]
+  simp only [computeComponent, runStages, hroot, hv, he, hm, hk, hx, hr, R.bind_ok']
+
+theorem plain_ok : ∃ rows, interpret (Env.ofData D args) ir = .ok rows := ⟨rows, plain_rows⟩
+
+end C21b
+
 end TF.Engine.Witness
